@@ -32,7 +32,7 @@ func init() {
 	core.Register(&core.Property{
 		ID:    "C11",
 		Level: "model_checking",
-		Rule: "universe = 25 import-editing changes (11 of them listing two or three imports in one change, add, add named, delete, rename path, rename name, name an unnamed import, drop a name, metavariable-named rename on named and unnamed file imports, match-only, replace by another package, paths ending in /v1) x every subset (<=3, thorough <=4) of other imports {named, blank, dot, plain, commented} x layout {grouped, single declarations, two blocks} x position of the affected import x remaining uses of the affected package name {none, plain selector elsewhere, chained selector, inside a call argument, only at the rewritten site, only through a shadowing parameter / local variable} x {API, CLI, CLI --skip-import-processing}. " +
+		Rule: "universe = 28 import-editing changes (11 of them listing two or three imports in one change, add, add named, delete, rename path, rename name, name an unnamed import, drop a name, metavariable-named rename on named and unnamed file imports, match-only, replace by another package, paths ending in /v1) x every subset (<=3, thorough <=4) of other imports {named, blank, dot, plain, commented} x layout {grouped, single declarations, two blocks} x position of the affected import x remaining uses of the affected package name {none, plain selector elsewhere, chained selector, inside a call argument, only at the rewritten site, only through a shadowing parameter / local variable} x {API, CLI, CLI --skip-import-processing}. " +
 			"Relational oracle from the statement over the sets of (name, path) of input and output. non-trivial = the change applies",
 		Assumptions: []string{
 			"an import on a context line (matched, neither added nor deleted) that is no longer referred to is unspecified: no assertion",
@@ -94,6 +94,10 @@ func c11Patches() []c11Patch {
 		{"two:metadel+metadel/un", c11TwoMetaDel(), `"old/p";rr "old/r"`, "p", "p.Foo(rr.Wrap(1))"},
 		{"two:metadel+metadel/nu", c11TwoMetaDel(), `pp "old/p";"old/r"`, "pp", "pp.Foo(r.Wrap(1))"},
 		{"two:metadel+metadel/nn", c11TwoMetaDel(), `pp "old/p";rr "old/r"`, "pp", "pp.Foo(rr.Wrap(1))"},
+		// paths whose last element is not the package name (gopkg.in versions, major-version suffixes, go- prefixes)
+		{"delete-yaml.v2", &model.Change{Kind: "expr", Meta: xm, Imports: []model.Import{imp("-", "", "gopkg.in/yaml.v2")}, Lines: model.L("-yaml.Foo(x)", "+foo(x)")}, `"gopkg.in/yaml.v2"`, "yaml", "yaml.Foo(1)"},
+		{"delete-v2-suffix", &model.Change{Kind: "expr", Meta: xm, Imports: []model.Import{imp("-", "", "x/api/v2")}, Lines: model.L("-api.Foo(x)", "+foo(x)")}, `"x/api/v2"`, "api", "api.Foo(1)"},
+		{"delete-go-prefix", &model.Change{Kind: "expr", Meta: xm, Imports: []model.Import{imp("-", "", "x/go-foo")}, Lines: model.L("-foo.Foo(x)", "+bar(x)")}, `"x/go-foo"`, "foo", "foo.Foo(1)"},
 		{"delete-blank", &model.Change{Kind: "expr", Meta: xm, Imports: []model.Import{imp("-", "_", "old/p")}, Lines: model.L("-foo(x)", "+bar(x)")}, `_ "old/p"`, "p", "foo(1)"},
 		{"delete-dot", &model.Change{Kind: "expr", Meta: xm, Imports: []model.Import{imp("-", ".", "old/p")}, Lines: model.L("-Foo(x)", "+foo(x)")}, `. "old/p"`, "p", "Foo(1)"},
 		{"replace-blank", &model.Change{Kind: "expr", Meta: xm, Imports: []model.Import{imp("-", "_", "old/p"), imp("+", "_", "new/p")}, Lines: model.L("-foo(x)", "+bar(x)")}, `_ "old/p"`, "p", "foo(1)"},
@@ -109,6 +113,9 @@ func c11TwoMetaDel() *model.Change {
 		Imports: []model.Import{{Tag: "-", Name: "p", Path: "old/p"}, {Tag: "-", Name: "r", Path: "old/r"}, {Tag: "+", Path: "new/q"}},
 		Lines:   model.L("-p.Foo(r.Wrap(x))", "+q.Foo(x)")}
 }
+
+// c11RealName: the package names of catalogue paths whose last element is not the package name
+var c11RealName = map[string]string{"gopkg.in/yaml.v2": "yaml", "x/api/v2": "api", "x/go-foo": "foo"}
 
 var c11Others = []string{`nn "x/named"`, `_ "x/blank"`, `. "x/dot"`, `"x/plain"`, `"x/commented" // why it is here`, `"C"`}
 
@@ -314,6 +321,9 @@ func c11Run(env *core.Env, ci any) core.Outcome {
 	bad := func(key, format string, a ...any) core.Outcome {
 		o.Violation = fmt.Sprintf("[%s, uses=%s, layout=%s, %s] ", c.PatchID, c.Uses, c.Layout, c.Mode) + fmt.Sprintf(format, a...) + "\n--- patch:\n" + ptext + "--- file:\n" + c.File + "--- output:\n" + string(out)
 		o.FindingKey = "C11:" + key + "/" + c.PatchID
+		if strings.HasPrefix(key, "!") { // semantic key: independent of the patch
+			o.FindingKey = "C11:" + key[1:]
+		}
 		return o
 	}
 	in, _, err := importsOf([]byte(c.File))
@@ -398,6 +408,9 @@ func c11Run(env *core.Env, ci any) core.Outcome {
 		local := fn
 		if local == "" {
 			local = path.Base(im.Path)
+			if rn, ok := c11RealName[im.Path]; ok {
+				local = rn
+			}
 		}
 		// the same (name, path) re-added by a '+' line is governed by the '+' rule
 		readded := false
@@ -421,6 +434,9 @@ func c11Run(env *core.Env, ci any) core.Outcome {
 				return bad("replaced-import-kept", "import %q is deleted by the patch and its name %q is taken over by an added import, but it is still present", im.Path, local)
 			}
 		case referred:
+			if _, odd := c11RealName[im.Path]; odd && present != 1 && fn == "" {
+				return bad("!package-name-is-not-the-last-path-element", "import %q (package %s) is still referred to as %q but occurs %d time(s) in the output: gopatch takes the last path element for the package name", im.Path, local, local, present)
+			}
 			if present != 1 {
 				return bad("used-import-removed", "import %q is still referred to as %q by the rewritten file but occurs %d time(s) in the output", im.Path, local, present)
 			}
